@@ -1176,6 +1176,10 @@ func c14GenDef(r *VRand, pool []c14Node, stats *VStats) *c14Def {
 		nl = 4 + r.Intn(3)
 		if r.Chance(0.15) {
 			nl = 7 + r.Intn(6)
+			if r.Chance(0.3) {
+				nl = 13 + r.Intn(18) // beyond any plausible fast-path threshold
+				stats.Inc("def.lines_13_to_30")
+			}
 		}
 	}
 	// one invalid item per definition, at a random place (so that evaluation often does
@@ -1206,6 +1210,10 @@ func c14GenDef(r *VRand, pool []c14Node, stats *VStats) *c14Def {
 			nf = 2 + r.Intn(2)
 			if r.Chance(0.08) {
 				nf = 4 + r.Intn(2)
+				if r.Chance(0.25) {
+					nf = 6 + r.Intn(5)
+					stats.Inc("line.conditions_6_to_10")
+				}
 			}
 		}
 		if r.Chance(0.012) && !(inv != 0 && inv < 4 && j == invLine) {
@@ -1237,6 +1245,10 @@ func c14GenDef(r *VRand, pool []c14Node, stats *VStats) *c14Def {
 				np = 2 + r.Intn(2)
 				if r.Chance(0.08) {
 					np = 4 + r.Intn(3)
+				}
+				if r.Chance(0.03) { // long value lists (set-lookup style fast paths live here)
+					np = 9 + r.Intn(32)
+					stats.Inc("func.values_9_to_40")
 				}
 			}
 			if r.Chance(0.02) {
@@ -1460,5 +1472,106 @@ func c14GenDur(r *VRand, stats *VStats) string {
 			o += term()
 		}
 		return o
+	}
+}
+
+// c14StructOnly: the definition uses a form that only the struct path can express (the config parser
+// cannot produce it): a condition without values, a line without conditions, an annotation list
+// whose length differs from the filter list, a policy held as *Function.  Code that rejects such
+// forms defensively is stricter than the model without touching any real configuration.
+func c14StructOnly(g *config.Group) bool {
+	if len(g.Filter) != len(g.FilterAnnotation) {
+		return true
+	}
+	for _, l := range g.Filter {
+		if len(l) == 0 {
+			return true
+		}
+		for _, f := range l {
+			if len(f.Params) == 0 {
+				return true
+			}
+		}
+	}
+	switch p := g.Policy.(type) {
+	case *config_parser.Function:
+		return true
+	case []*config_parser.Function:
+		for _, f := range p {
+			if len(f.Params) == 0 && f.Name == "fixed" {
+				return true
+			}
+		}
+	}
+	return false
+}
+
+// c14LazyReaches: would a per-node, short-circuit evaluation (the code before 367c759) have run into
+// the invalid item of this definition?  Written over the Go-side oracles only (no call into filter.go).
+func c14LazyReaches(o *c14Oracle, pool []c14Node, g *config.Group) bool {
+	badParam := func(f *config_parser.Function, p *config_parser.Param) bool {
+		switch {
+		case p.Key == "":
+			return false
+		case p.Key == "regex":
+			return o.re[p.Val] == nil
+		case p.Key == "keyword" && f.Name == "name":
+			return false
+		}
+		return true
+	}
+	annoBad := func(a []*config_parser.Param) bool {
+		for _, p := range a {
+			if p.Key != "add_latency" || o.dur[p.Val] == nil {
+				return true
+			}
+		}
+		return false
+	}
+	for _, n := range pool {
+		for j, line := range g.Filter {
+			hit := true
+			for _, f := range line {
+				if f.Name != "name" && f.Name != "subtag" {
+					return true
+				}
+				sub := false
+				for _, p := range f.Params {
+					if badParam(f, p) {
+						return true
+					}
+					one := &config_parser.Function{Name: f.Name, Params: []*config_parser.Param{p}}
+					if c14LineHolds(o, n, []*config_parser.Function{one}) {
+						sub = true
+						break
+					}
+				}
+				if sub == f.Not {
+					hit = false
+					break
+				}
+			}
+			if hit {
+				if j < len(g.FilterAnnotation) && annoBad(g.FilterAnnotation[j]) {
+					return true
+				}
+				break
+			}
+		}
+	}
+	return false
+}
+
+// A user pattern whose match is found only after exponential backtracking (≈ 0.1–0.3 s for this name):
+// the true answer is MATCH.  Code that bounds the match time and swallows the time-out error (filterHit
+// discards MatchString's error) silently drops / admits the node.  The oracle and the model have no
+// time-out.  Deterministic on the unchanged tree (regexp2 has no time-out there), only slow.
+func c14DirectedSlowRegex() ([]c14Node, []*c14Def) {
+	pool := []c14Node{{strings.Repeat("a", 22) + "!", "s1"}, {"aaaa", "s1"}, {"hk", "s2"}}
+	pat := `^(?:(a+)+!x|a+!)$`
+	return pool, []*c14Def{
+		{Lines: [][]c14Func{{{Name: "name", Params: []c14Param{{Key: "regex", Val: pat}}}}}, Annos: [][]c14Param{nil}, Policy: "min"},
+		{Lines: [][]c14Func{{{Name: "name", Not: true, Params: []c14Param{{Key: "regex", Val: pat}}}}}, Annos: [][]c14Param{{{Key: "add_latency", Val: "5ms"}}},
+			Policy: []c14Func{{Name: "fixed", Params: []c14Param{{Val: "0"}}}}},
 	}
 }
